@@ -227,6 +227,8 @@ def front_end_jobs(tier, harness):
                      {"space": "graphs of AST2SCFG over S2-armloop (a loop with guarded terminators that lives in / ends one arm of a branch)"}))
         js.append(mk("bytecode-derived-S2-loop-in-branch-arm", lambda ch: s2.ArmLoopGen(ch), 3, "bytecode",
                      {"space": "graphs of ByteFlow over compiled S2-armloop"}))
+        js.append(mk("source-derived-S2-loop-in-nested-branch-arm", lambda ch: s2.ArmLoopGen(ch, nested=True), 3, "source",
+                     {"space": "graphs of AST2SCFG over S2-armloop nested in the arm of an enclosing if"}))
         js.append(mk("source-derived-S2-multi-exit-loop-then-branching-code", lambda ch: s2.SeqLoopGen(ch), 3, "source",
                      {"space": "graphs of AST2SCFG over S2-seqloop (a loop left in up to four ways, followed by code that branches again)"}))
         js.append(mk("bytecode-derived-S2-multi-exit-loop-then-branching-code", lambda ch: s2.SeqLoopGen(ch), 3, "bytecode",
@@ -242,6 +244,8 @@ def front_end_jobs(tier, harness):
                      {"space": "graphs of AST2SCFG over S2-armloop"}))
         js.append(mk("bytecode-derived-S2-loop-in-branch-arm", lambda ch: s2.ArmLoopGen(ch), 3, "bytecode",
                      {"space": "graphs of ByteFlow over compiled S2-armloop"}))
+        js.append(mk("source-derived-S2-loop-in-nested-branch-arm", lambda ch: s2.ArmLoopGen(ch, nested=True), 3, "source",
+                     {"space": "graphs of AST2SCFG over S2-armloop nested in the arm of an enclosing if"}))
         js.append(mk("source-derived-S2-multi-exit-loop-then-branching-code", lambda ch: s2.SeqLoopGen(ch), 3, "source",
                      {"space": "graphs of AST2SCFG over S2-seqloop (a loop left in up to four ways, followed by code that branches again)"}))
         js.append(mk("bytecode-derived-S2-multi-exit-loop-then-branching-code", lambda ch: s2.SeqLoopGen(ch), 3, "bytecode",
